@@ -558,6 +558,11 @@ class Fn(object):
                 return [('(%s == %s)' % (l, r), False)]
             if op == '==':
                 return [('(%s == %s)' % (l, r), True)]
+            # canonical relational form: only < and <= (x >= y is the negation of x < y, x > y of x <= y)
+            if op == '>=':
+                return [('(%s < %s)' % (l, r), False)]
+            if op == '>':
+                return [('(%s <= %s)' % (l, r), False)]
             return [('(%s %s %s)' % (l, op, r), True)]
         return [(self.key(c), pol)]
 
@@ -898,6 +903,15 @@ class Explorer(object):
                             continue
                         k = atom_key(fn, a)[0]
                         cnt.setdefault(k, set()).add(b.id)
+        for b in fn.blocks.values():
+            if b.tk == 'SwitchStmt' and b.cond is not None:
+                sk = fn.key(b.cond)
+                for s2 in b.succs:
+                    l2 = fn.blocks[s2].label if s2 is not None else None
+                    if l2 and l2.get('kind') == 'case' and 'v' in l2:
+                        k = '(%s == #%d)' % (sk, l2['v'])
+                        if k in cnt:
+                            cnt[k].add(('sw', b.id))
         return set(k for k, bs in cnt.items() if len(bs) >= 2)
 
     def _pure(self, a):
@@ -967,7 +981,27 @@ class Explorer(object):
         """DNF of the decision (b, idx) pruned by valuation; None if infeasible"""
         fn = self.fn
         blk = fn.blocks[b]
-        if blk.cond is None or blk.tk == 'SwitchStmt' or len(blk.succs) != 2:
+        if blk.tk == 'SwitchStmt' and blk.cond is not None:
+            # a case edge fixes the switch operand to the label value; the default edge excludes all labels
+            tgt = blk.succs[idx]
+            lab = fn.blocks[tgt].label if tgt is not None else None
+            sk = fn.key(blk.cond)
+            vd = dict(val)
+            if lab and lab.get('kind') == 'case' and 'v' in lab:
+                k = '(%s == #%d)' % (sk, lab['v'])
+                if vd.get(k) is False:
+                    return None
+                for kk, pp in vd.items():
+                    if pp and kk.startswith('(%s == #' % sk) and kk != k:
+                        return None
+                return [[('b', k, True, blk.cond)]]
+            if lab and lab.get('kind') == 'default':
+                for s2 in blk.succs:
+                    l2 = fn.blocks[s2].label if s2 is not None else None
+                    if l2 and l2.get('kind') == 'case' and vd.get('(%s == #%d)' % (sk, l2.get('v', -1))) is True:
+                        return None
+            return [[]]
+        if blk.cond is None or len(blk.succs) != 2:
             return [[]]
         c = fn.effective_cond(b)
         dnf = implied(fn, c, idx == 0)
